@@ -1,8 +1,8 @@
 import SteelVerif.C18.LemmasDepth
 import SteelVerif.C18.LemmasEq
 /-
-C18 — the negative results: runs of the model (configuration `Cfg.current`, the code as it is) that never
-finish or take exponentially many rounds.
+C18 — the negative results: runs of the model that never finish or take exponentially many rounds — for
+`Cfg.current` (the code as it is) where the defect is open, for `Cfg.legacy` where it has been repaired.
 -/
 namespace SteelVerif.C18
 
@@ -21,17 +21,17 @@ theorem twoRings_node_right (k : Kind) (n i : Nat) (h : i < n) :
 
 /-- `equal?` of two distinct rings of boxes of any length: the loop returns to where it was. -/
 theorem eq_box_rings_closed (k : Kind) (hk : k = .box ∨ k = .sbox) (n : Nat) (keyEq : Nat → Nat → Bool) (i : Nat) (hi : i < n) :
-    eqStep Cfg.current (twoRings k n) keyEq { work := [(i, n + i)], vis := [] } =
+    eqStep Cfg.legacy (twoRings k n) keyEq { work := [(i, n + i)], vis := [] } =
       .next { work := [((i + 1) % n, n + (i + 1) % n)], vis := [] } := by
   have hl := twoRings_node_left k n i hi
   have hr := twoRings_node_right k n i hi
   have hne : (i == n + i) = false := by simp; omega
   rcases hk with rfl | rfl
-  · simp [eqStep, eqArm, eqChildren, Graph.kind, hl, hr, eqDescends, eqChecked, Cfg.current, hne]
-  · simp [eqStep, eqArm, eqChildren, Graph.kind, hl, hr, eqDescends, eqChecked, Cfg.current, hne]
+  · simp [eqStep, eqArm, eqChildren, Graph.kind, hl, hr, eqDescends, eqChecked, Cfg.legacy, hne]
+  · simp [eqStep, eqArm, eqChildren, Graph.kind, hl, hr, eqDescends, eqChecked, Cfg.legacy, hne]
 
 theorem eq_box_rings_diverge (k : Kind) (hk : k = .box ∨ k = .sbox) (n : Nat) (hn : 0 < n) (keyEq : Nat → Nat → Bool) (fuel : Nat) :
-    iter (eqStep Cfg.current (twoRings k n) keyEq) fuel { work := [(0, n)], vis := [] } = none := by
+    iter (eqStep Cfg.legacy (twoRings k n) keyEq) fuel { work := [(0, n)], vis := [] } = none := by
   apply iter_closed_none (fun s => ∃ i, i < n ∧ s = { work := [(i, n + i)], vis := [] })
   · intro s ⟨i, hi, hs⟩
     subst hs
@@ -51,24 +51,24 @@ theorem mark_sbox_ring_diverges (n : Nat) (hn : 0 < n) (fuel : Nat) :
 
 /-- the cycle collector (display) on a ring of strong boxes -/
 theorem cc_sbox_ring_diverges (n : Nat) (hn : 0 < n) (fuel : Nat) :
-    ccRun Cfg.current (ring .sbox n) fuel 0 = none := by
+    ccRun Cfg.legacy (ring .sbox n) fuel 0 = none := by
   unfold ccRun
   apply iter_closed_none (fun s => ∃ i, i < n ∧ s = { work := [i], vis := [], found := false })
   · intro s ⟨i, hi, hs⟩
     subst hs
     refine ⟨{ work := [(i + 1) % n], vis := [], found := false }, ?_, (i + 1) % n, Nat.mod_lt _ hn, rfl⟩
-    simp [ccStep, ccExpands, ccSetsFound, ring_kind .sbox n i hi, ring_sons .sbox (by decide) n i hi, Cfg.current]
+    simp [ccStep, ccExpands, ccSetsFound, ring_kind .sbox n i hi, ring_sons .sbox (by decide) n i hi, Cfg.legacy]
   · exact ⟨0, hn, rfl⟩
 
 /-- Display of a ring of boxes re-enters itself for ever: every level of fuel is used -/
-theorem printDepth_box_ring (n : Nat) : ∀ (fuel i : Nat), i < n → printDepth Cfg.current (ring .box n) fuel 0 i = fuel := by
+theorem printDepth_box_ring (n : Nat) : ∀ (fuel i : Nat), i < n → printDepth Cfg.legacy (ring .box n) fuel 0 i = fuel := by
   intro fuel
   induction fuel with
   | zero => intro i _; rfl
   | succ f ih =>
     intro i hi
     have hn : 0 < n := by omega
-    have hre : printReenters Cfg.current .box = true := by decide
+    have hre : printReenters Cfg.legacy .box = true := by decide
     simp only [printDepth, printLimit, ring_kind .box n i hi, ring_sons .box (by decide) n i hi, hre, if_true,
       List.map_cons, List.map_nil, maxL, ih ((i + 1) % n) (Nat.mod_lt _ hn)]
     simp
